@@ -223,6 +223,41 @@ func ruleTLWFrame(r *Run, p *Prog) {
 	if n == 0 {
 		r.Ob("TLW-FRAME", fn+"/latch", p.Pos(trig.Pos()), false, true, "trigger() never sets triggered")
 	}
+	// the explicit Trigger() latches on every path: it returns with `triggered` set (by it, or
+	// already), whether or not lines are held — a later low-level line must pass at once
+	if tr := p.Method("", "TriggerLevelWriter", "Trigger"); r.Anchor(tr != nil, "TLW-FRAME", "(*TriggerLevelWriter).Trigger") {
+		tv := p.View(tr, "", nil)
+		paths, complete := enumPaths(tv, 2, 5000)
+		isTrigField := func(v ssa.Value) bool {
+			fv, base := loadedField(v)
+			return fv != nil && fname(fv) == "triggered" && typeIs(base.Type(), modPath, "TriggerLevelWriter")
+		}
+		okAll, nRet := complete, 0
+		for _, pa := range paths {
+			if _, isRet := pa.Exit.(*ssa.Return); !isRet {
+				continue
+			}
+			nRet++
+			latched := hasCmp(pa.Cmps(), func(op token.Token, x, y ssa.Value) bool {
+				b, ok := constBool(y)
+				return ok && isTrigField(x) && ((op == token.EQL && b) || (op == token.NEQ && !b))
+			})
+			for _, in := range pa.Instrs() {
+				if st, ok := in.(*ssa.Store); ok {
+					if fa, ok := st.Addr.(*ssa.FieldAddr); ok && typeIs(fa.X.Type(), modPath, "TriggerLevelWriter") && fname(fieldVar(fa)) == "triggered" {
+						if bv, isB := constBool(st.Val); isB && bv {
+							latched = true
+						}
+					}
+				}
+			}
+			if !latched {
+				okAll = false
+			}
+		}
+		okc := okAll && nRet > 0
+		r.Ob("TLW-FRAME", FnName(tr)+"/latches-on-every-path", p.Pos(tr.Pos()), okc, true, tern(okc, "every return of Trigger() leaves triggered set", "Trigger() can return without having set triggered (a shortcut before the latch, e.g. when nothing is held): lines at or below the conditional level written afterwards are held back instead of passing"))
+	}
 	// buf.Bytes() only read by trigger
 	for _, f := range p.ModFns {
 		eachInstr(f, func(b *ssa.BasicBlock, i int, in ssa.Instruction) {
